@@ -1080,7 +1080,8 @@ class Machine(object):
         prepare = _prep_ordered_arg(len_transitions, prepare)
         # reorder list so that the initial state is actually the first one
         try:
-            idx = states.index(self._initial)
+            # states may be given as names, State objects or Enum members
+            idx = [s.name if hasattr(s, 'name') else s for s in states].index(self._initial)
             states = states[idx:] + states[:idx]
             first_in_loop = states[0 if loop_includes_initial else 1]
         except ValueError:
